@@ -47,6 +47,17 @@ Theorem C09_escape_clean : forall s, skeleton (html_escape s) = "".
 Proof. exact escape_clean. Qed.
 Print Assumptions C09_escape_clean.
 
+(* ... and loses nothing: decoding the five character references (what an HTML parser does with text content) gives
+   back exactly the original text, whatever it was - so the page SHOWS the message, detail and error type as given *)
+Theorem C09_unescape_escape : forall s fuel, String.length (html_escape s) <= fuel -> unescape fuel (html_escape s) = s.
+Proof. exact unescape_escape. Qed.
+Print Assumptions C09_unescape_escape.
+
+Example C09_unescape_example :
+  unescape 100 (html_escape "<b>&amp; 'x' ""y""</b>") = "<b>&amp; 'x' ""y""</b>" /\
+  html_escape "<b>&amp;" = "&lt;b&gt;&amp;amp;".
+Proof. split; reflexivity. Qed.
+
 (* str.format never re-scans inserted values: fields without markup characters cannot change the markup skeleton *)
 Theorem C09_format_inert : forall tpl f, fields_clean f -> skeleton (fmt tpl f) = skeleton (fmt tpl empty_fields).
 Proof. exact fmt_skeleton. Qed.
